@@ -351,18 +351,44 @@ func (v *TV) show() string {
 	return v.T + "(" + v.X + ")"
 }
 
-// floatExact: decimal text of a binary float.  A float denotes its shortest
-// round-trip decimal (what encoding/json prints, what a user means by the
-// float64 0.1); but at 2^53 and beyond every float is an integer and the
-// shortest text pads with zeros that are not there (2^63 would become
-// 9223372036854776000), so there the exact integer is used.
+// floatExact: decimal text of a binary float.  A float whose exact decimal
+// expansion has at most 34 significant digits (every integer below 2^113 or
+// so, every dyadic fraction m/2^k with a short expansion: 0.5, 2^-25,
+// 1 + 2^-30) IS that decimal: the library converts it exactly and C14 speaks
+// of floats "when the value is exactly representable".  Any other float
+// denotes its shortest round-trip decimal (what encoding/json prints, what a
+// user means by the float64 0.1).
+var shortestFloats = false // projection used to compare across encoding/json
+
 func floatExact(x float64) string {
-	if math.Abs(x) >= 1<<53 {
-		if i, acc := new(big.Float).SetFloat64(x).Int(nil); acc == big.Exact {
-			return i.String()
+	if !shortestFloats {
+		if r := new(big.Rat).SetFloat64(x); r != nil {
+			k := r.Denom().BitLen() - 1 // the denominator is 2^k: exactly k fractional digits
+			if k <= 120 {
+				exact := r.FloatString(k)
+				if sigDigits(exact) <= 34 {
+					return exact
+				}
+			}
 		}
 	}
 	return strconv.FormatFloat(x, 'e', -1, 64)
+}
+
+// sigDigits counts the significant digits of a number in 'e' notation.
+func sigDigits(text string) int {
+	m := text
+	if i := strings.IndexAny(m, "eE"); i >= 0 {
+		m = m[:i]
+	}
+	m = strings.TrimLeft(m, "+-")
+	m = strings.Replace(m, ".", "", 1)
+	m = strings.TrimLeft(m, "0")
+	m = strings.TrimRight(m, "0")
+	if m == "" {
+		return 1
+	}
+	return len(m)
 }
 
 // fromGo projects a Go value returned by (or passed to) the library.
